@@ -26,6 +26,7 @@ func runC02(c *fw.Ctx) {
 	r22(c)
 	r23(c)
 	comparableBothDirections(c, "R2.4")
+	r123as(c, "R2.5", false)
 }
 
 type opTables struct {
